@@ -56,6 +56,9 @@ def _check_nextpow2(prog: Program) -> Tuple[bool, str]:
     if not rets:
         return False, "no return statement"
     from ..model import parent_of
+    closed = _closed_form_nextpow2(prog, f, rets)
+    if closed is not None:
+        return closed
     for r in rets:
         if not isinstance(r.value, ast.Name):
             return False, f"returns non-name {unparse(r.value)}"
@@ -87,6 +90,68 @@ def _check_nextpow2(prog: Program) -> Tuple[bool, str]:
         if not ok:
             return False, f"`return {p}` is not guarded by `{p} > {n}`"
     return True, f"every return of nextpow2 is guarded by result > {n}"
+
+
+def _closed_form_nextpow2(prog: Program, f: Func, rets) -> Optional[Tuple[bool, str]]:
+    """Loop-free bodies: the returned value as a term of n.  2**ceil(log2(n)) (optionally maximised with other terms) is >= n;
+    2**(floor(log2(n)) + 1) is > n; round / floor / int of the exponent can fall below n."""
+    if any(isinstance(x, (ast.While, ast.For)) for x in own_nodes(f.node)):
+        return None
+    from ..pathtable import PathTable
+    n = sp.Symbol(f.params[0], real=True)
+
+    def hook(call, T):
+        nm = call_name(call)
+        if nm in ("log2", "ceil", "floor", "round", "rint", "int", "max", "maximum") and call.args:
+            return sp.Function(f"np2_{nm}")(*[T.tr(a) for a in call.args])
+        return None
+    pt = PathTable(prog, f.module, structured=True, call_hook=hook)
+    leaves = [l for l in pt.leaves(f.node.body) if l.exit == "return" and l.value is not None]
+    if not leaves:
+        return None
+
+    def fn(e):
+        return getattr(getattr(e, "func", None), "__name__", "")
+
+    def lower_exp(e):
+        """('ge'|'gt'|None) when 2**e is known >= / > n."""
+        if fn(e) in ("np2_int",) and len(e.args) == 1 and fn(e.args[0]) == "np2_ceil":
+            e = e.args[0]
+        if fn(e) == "np2_ceil" and len(e.args) == 1 and fn(e.args[0]) == "np2_log2" and e.args[0].args[0] == n:
+            return "ge"
+        if isinstance(e, sp.Add):
+            consts = [a for a in e.args if a.is_number]
+            rest = [a for a in e.args if not a.is_number]
+            if len(rest) == 1 and consts and sum(consts) >= 1:
+                r = rest[0]
+                while fn(r) == "np2_int" and len(r.args) == 1:
+                    r = r.args[0]
+                if fn(r) in ("np2_floor", "np2_int") and fn(r.args[0]) == "np2_log2" and r.args[0].args[0] == n:
+                    return "gt"
+                if fn(r) == "np2_log2" and r.args[0] == n:      # int(log2(n)) + 1 after int stripping
+                    return "gt"
+                if lower_exp(r):
+                    return "gt"
+        return None
+
+    def bound(v):
+        if fn(v) in ("np2_max", "np2_maximum"):
+            bs = [bound(a) for a in v.args]
+            if "gt" in bs:
+                return "gt"
+            if "ge" in bs:
+                return "ge"
+            return None
+        if fn(v) == "np2_int" and len(v.args) == 1:
+            return bound(v.args[0])
+        if isinstance(v, sp.Pow) and v.base == 2:
+            return lower_exp(v.exp)
+        return None
+    for l in leaves:
+        b = bound(l.value)
+        if b is None:
+            return False, f"returns {l.value}, which is not bounded below by {f.params[0]}"
+    return True, f"every return of nextpow2 is a power of two with exponent >= log2({f.params[0]})"
 
 
 def _running_max_names(f: Func, records: str) -> Dict[str, str]:
@@ -263,7 +328,7 @@ def extract(prog: Program) -> FftTable:
                         pass
                     else:
                         raise AnalysisError(f"prepare_fft_settings: unrecognised guard `{x}`")
-                bad = [a for a in cv.free_symbols if a not in (M, D, U) and a.name != "e"]
+                bad = [a for a in cv.free_symbols if a not in (M, D, U) and a.name not in ("e", "g_unchecked")]
                 if bad or cv.has(NONE):
                     raise AnalysisError(f"prepare_fft_settings: name `{bad[0] if bad else 'None'}` in a stored fft length is not classified ({cv})")
                 stores.append(Store(st, st.value, cv, conds, kind))
